@@ -22,6 +22,24 @@ def axiom_pool():
     ]
 
 
+def twin_pool():
+    """axioms whose sub-patterns *print* alike but differ (constraints are not printed; notation prints like its
+    expansion's sugar): anything that identifies patterns by their printed form confuses them. Addressed by
+    indices 100, 101, ... in `build`."""
+    x0 = P.EVar(0)
+    f0 = P.MetaVar(0, e_fresh=(x0,))
+    p0 = P.MetaVar(0, positive=(P.SVar(0),))
+    a = P.Symbol('a')
+    return [
+        P.Implies(P.MetaVar(0), P.Implies(P.MetaVar(1), P.MetaVar(0))),
+        P.Implies(P.MetaVar(0), P.Exists(0, P.MetaVar(0))),
+        P.Implies(P.Exists(0, f0), f0),
+        P.Implies(P.Mu(0, p0), p0),
+        P.App(P.App(a, f0), P.MetaVar(0)),
+        P.Implies(P.neg(a), P.Implies(a, P.bot())),
+    ]
+
+
 # graph shapes: list of (node name, imports (names), number of own axioms); last node is the top module
 SHAPES = {
     'single': [('T', (), 2)],
@@ -38,6 +56,7 @@ def build(shape: str, axiom_idx: tuple, claim_mode: str = 'all', share: bool = F
                 'own' = only the top module's axioms, 'none' = no claims.
     share: the same axiom is declared by two different nodes (distinct owners publish equal patterns)."""
     pool = axiom_pool()
+    twins = twin_pool()
     nodes = {}
     declared = {}
     order = []
@@ -47,7 +66,7 @@ def build(shape: str, axiom_idx: tuple, claim_mode: str = 'all', share: bool = F
         axs = []
         for _ in range(nax):
             i = next(it)
-            axs.append(pool[i % len(pool)])
+            axs.append(twins[i - 100] if i >= 100 else pool[i % len(pool)])
         if share and first_axiom is not None and name != SHAPES[shape][0][0]:
             axs = axs + [first_axiom]
         if axs and first_axiom is None:
@@ -100,4 +119,15 @@ def family(n_axiom_choices: int):
                 out.append((shape, idx, mode, False))
             if need >= 2:
                 out.append((shape, idx, 'all', True))
+    return out
+
+
+def twin_family():
+    """modules over the twin pool: every ordered selection of distinct twins for three shapes, all axioms claimed"""
+    n = len(twin_pool())
+    out = []
+    for shape in ('single', 'chain', 'twice'):
+        need = sum(k for _, _, k in SHAPES[shape])
+        for idx in itertools.permutations(range(100, 100 + n), need):
+            out.append((shape, idx, 'all', False))
     return out
